@@ -397,6 +397,11 @@ func run(c *core.Ctx) {
 	for pad := 0; pad < c.Q(200, 1500); pad++ {
 		jobs = append(jobs, job{runCfg{vmesh.Line(6), vmesh.LabelMode(pad % 3), pad, "fifo"}})
 	}
+	// big router infos (announcement frames in the largest regular buffer class) through routers that forward
+	// on several links: stars and small trees
+	for i, sz := range []int{8800, 9000, 9100, 9200, 9250, 9300, 9350, 9400} {
+		jobs = append(jobs, job{runCfg{[]*vmesh.Topology{vmesh.Star(5), vmesh.Tree(7), vmesh.Star(4)}[i%3], vmesh.LabelMode(i % 3), sz, "fifo"}})
+	}
 	parallel(W, func(w int) {
 		r := core.RNG(fmt.Sprintf("c09/worker/%d", w))
 		pool := &idPool{r: core.RNG(fmt.Sprintf("c09/ids/%d", w))}
